@@ -4,4 +4,4 @@ import StirVerif.C11.Lemmas
 import StirVerif.C11.Proofs
 import StirVerif.C11.Props
 import StirVerif.C06.Props
-import StirVerif.C01.Model
+import StirVerif.C01.Props
